@@ -5,7 +5,9 @@
 (2) study-expansion correspondence with adversarial parameter values and labels
     (spaces, slashes, dots, signs, quotes, unicode), with and without --hashws;
 (3) script generation with the real local / Slurm / LSF adapters (+-usetmp): the
-    workspace / script-path monitor evaluated on the real tree."""
+    workspace / script-path monitor evaluated on the real tree, then the graph is run to
+    the end (recording `submit`) and every launch's working directory is compared with
+    the instance's workspace."""
 import os
 import shutil
 
@@ -109,6 +111,53 @@ CORPUS = [
 ]
 
 
+def launch_monitor(dag2, which, scripts, hash_ws, use_tmp):
+    """Runs the staged graph to the end through the real ExecutionGraph with the real
+    adapter classes, whose `submit` / `check_jobs` are replaced by recorders (every job
+    succeeds): the working directory each launch is given must be the instance's own
+    workspace (that is where the local adapter writes the captured stdout/stderr and
+    where the schedulers run the script)."""
+    from maestrowf.abstracts.enums import JobStatusCode, State, SubmissionCode
+    from maestrowf.interfaces import ScriptAdapterFactory
+    from maestrowf.interfaces.script import SubmissionRecord
+    launches = []
+    classes = {ScriptAdapterFactory.get_adapter(which), ScriptAdapterFactory.get_adapter("local")}
+    saved = [(c, c.__dict__.get("submit"), c.__dict__.get("check_jobs")) for c in classes]
+
+    def submit(self, step, path, cwd, job_map=None, env=None):
+        launches.append((step.real_name, path, cwd))
+        return SubmissionRecord(SubmissionCode.OK, 0, len(launches))
+
+    def check_jobs(self, joblist):
+        return JobStatusCode.OK, {j: State.FINISHED for j in joblist}
+
+    mon = []
+    try:
+        for c in classes:
+            c.submit, c.check_jobs = submit, check_jobs
+        for _ in range(3 * len(dag2.values) + 3):
+            if dag2.execute_ready_steps().name != "RUNNING":
+                break
+    except Exception:  # noqa   (execution problems are other properties')
+        pass
+    finally:
+        for c, sub, chk in saved:
+            for nm, fn in (("submit", sub), ("check_jobs", chk)):
+                if fn is None:
+                    delattr(c, nm)
+                else:
+                    setattr(c, nm, fn)
+    tag = "hashws=%s usetmp=%s" % (bool(hash_ws), bool(use_tmp))
+    for name, path, cwd in launches:
+        if name not in scripts:
+            continue
+        ws = scripts[name][0]
+        if os.path.normpath(cwd) != os.path.normpath(ws):
+            mon.append(("writes-inside", "%s: instance %r is launched (script %s) with working directory %s; "
+                        "its workspace is %s" % (tag, name, path, cwd, ws)))
+    return mon[:3]
+
+
 def monitor_factory(ctx, force=None):
     def monitor(spec, study, params, steps, dag, hash_ws, root):
         mon = SS.workspace_monitor(root, dag, hash_ws=hash_ws)
@@ -140,6 +189,7 @@ def monitor_factory(ctx, force=None):
                 for key, r in dag2.values.items():
                     if key != "_source":
                         scripts[key] = (r.workspace.value, r.script, use_tmp)
+                mon += launch_monitor(dag2, which, scripts, hash_ws, use_tmp)
             except FileNotFoundError as e:
                 slash = any("/" in k for k in dag2.values)
                 mon.append(("writes-inside", "cause=%s: script generation failed: %s"
